@@ -261,6 +261,17 @@ def finishCase (T : Tables) (fmtDen : List (Name × Den)) (c : Case) : List Stri
         if pred != real then
           out := out ++ [s!"{c.id} CORR diff loads.{nm} model-discipline={pred} tool={real}"]
       | none => pure ()
+    -- CORR 4b: what the theorems of Props/C15.lean predict from the registry alone (`python_loads_iff`,
+    -- `javascript_loads_iff`, `matlab_loads_iff`, `loadable` for C) against the real tools
+    if decide ((defNames c.items).Nodup) then
+      let inF := R.aliasOfStruct || R.structUsesMsg
+      for (nm, pred) in [("py", some (!inF)), ("js", some (!R.aliasOfStruct)), ("m", some (!inF)),
+                         ("c", if inF then none else some true)] do
+        match c.load.find? (·.1 == nm), pred with
+        | some (_, real), some p =>
+          if p != real then
+            out := out ++ [s!"{c.id} CORR diff predict.{nm} theorem-side-condition={p} tool={real}"]
+        | _, _ => pure ()
   | _, _ => pure ()
   -- CORR 5: the combined YAML — the writer's sections, and what a re-parse of them gives
   let filesOk := flattenFiles c.files == c.items
@@ -313,7 +324,13 @@ def finishCase (T : Tables) (fmtDen : List (Name × Den)) (c : Case) : List Stri
     | ["ok"] =>
       let real : List (String × Bool) := c.load.map (fun (x : String × Bool) => ("tool_" ++ x.1, x.2))
       match firstFalse (real ++ loadClauses c.py c.c c.js (dropUse c.skipHdr c.m) (corePre c.items)) with
-      | some x => "fail " ++ x
+      | some x =>
+        -- the finding class, decided by the Lean predicates on the model's registry (Spec: `Reg.aliasOfStruct` = C15-F3,
+        -- `Reg.structUsesMsg` = C15-F4 — the side conditions of `loadable`)
+        let cls := match model with
+          | .ok R => (if R.aliasOfStruct then " class:F3" else "") ++ (if R.structUsesMsg then " class:F4" else "")
+          | .error _ => ""
+        "fail " ++ x ++ cls
       | none => "ok"
     | ["err", "internal"] => if c.documented then "fail internal_error_on_documented_closure" else "skip"
     | _ => "skip"
